@@ -209,6 +209,7 @@ var c10PoolTable = map[string]c10PoolRow{
 	"server.tcpEngine.streams": {Exempt: map[string]string{
 		"fill":  "payload bytes: read only through fill[start:end], and start/end are reset",
 		"drain": "payload bytes: written by stage before flush reads drain[:held], and held is reset",
+		"wait":  "reusable *time.Timer built once per stream and stopped by every reset; holds no request data",
 	}},
 	"server/doq.msgPool": {Exempt: map[string]string{
 		"Compress": "packing hint, not client data: Unpack never sets it and the DoQ request is never packed towards a client; a stale true could at most compress the upstream copy of this same question (DESIGN §2.5 triage: benign)",
